@@ -53,6 +53,7 @@ type initEnt struct {
 
 type caseRec struct {
 	Target string    `json:"target"` // value | store
+	Codec  string    `json:"codec,omitempty"` // "" = fixed (8 bytes) | varlen (0 -> zero bytes, 1..255 -> one byte)
 	Init   []initEnt `json:"init"`
 	Ops    []op      `json:"ops"`
 	Faults []int     `json:"faults"`          // 1-based fallible sites that fail
@@ -95,6 +96,41 @@ func decK(b []byte) (string, int, error) {
 
 var garbageBytes = []byte("garbage")
 
+// valueCodec is the reference value codec of a case. "fixed": 8 bytes big endian.
+// "varlen": 0 encodes to ZERO bytes, 1..255 to one byte, everything else to 8 bytes
+// (so presence and content of the raw key are distinguishable concerns).
+type valueCodec struct {
+	enc func(int64) []byte
+	dec func([]byte) (int64, int, error)
+}
+
+func encVar(v int64) []byte {
+	switch {
+	case v == 0:
+		return []byte{}
+	case v > 0 && v < 256:
+		return []byte{byte(v)}
+	}
+	return encV(v)
+}
+
+func decVar(b []byte) (int64, int, error) {
+	switch len(b) {
+	case 0:
+		return 0, 0, nil
+	case 1:
+		return int64(b[0]), 1, nil
+	}
+	return decV(b)
+}
+
+func codecOf(cr caseRec) valueCodec {
+	if cr.Codec == "varlen" {
+		return valueCodec{encVar, decVar}
+	}
+	return valueCodec{encV, decV}
+}
+
 // ---------------------------------------------------------------- running one case
 
 type violation struct{ fp, what string }
@@ -107,6 +143,8 @@ type runResult struct {
 	viol   *violation
 	trace  []string
 	checks int
+
+	zeroLenWrites, noopWrites int // successful writes whose encoding is empty / equals the bytes already stored
 
 	wantTrace bool
 }
@@ -148,6 +186,8 @@ func opName(target string, o op) string {
 		return t + "Delete"
 	case "cinc":
 		return t + "Compute(inc)"
+	case "cconst":
+		return t + "Compute(const)"
 	case "cnc":
 		return t + "Compute(ErrTypedValueNotChanged)"
 	case "cfail":
@@ -166,7 +206,7 @@ func runCase(cr caseRec, trace bool) runResult {
 	inner := mapdb.NewMapDB()
 	model := map[string][]byte{}
 	for _, e := range cr.Init {
-		b := encV(e.V)
+		b := codecOf(cr).enc(e.V)
 		if e.State == "garbage" {
 			b = garbageBytes
 		}
@@ -216,25 +256,36 @@ func rawDiff(inner kvstore.KVStore, model map[string][]byte) string {
 }
 
 func runValue(cr caseRec, in *faultkv.Injector, st kvstore.KVStore, inner kvstore.KVStore, model map[string][]byte, res *runResult) {
+	cd := codecOf(cr)
 	enc := func(v int64) ([]byte, error) {
 		if err := in.FailHere("enc.value"); err != nil {
 			return nil, err
 		}
-		return encV(v), nil
+		return cd.enc(v), nil
 	}
 	dec := func(b []byte) (int64, int, error) {
 		if err := in.FailHere("dec.value"); err != nil {
 			return 0, 0, err
 		}
-		return decV(b)
+		return cd.dec(b)
 	}
 	tv := kvstore.NewTypedValue[int64](st, tvKey, enc, dec)
 	key := string(tvKey)
+	write := func(v int64) { // a successful write of v: the raw key must now hold exactly enc(v)
+		b := cd.enc(v)
+		if old, ok := model[key]; ok && bytes.Equal(old, b) {
+			res.noopWrites++
+		}
+		if len(b) == 0 {
+			res.zeroLenWrites++
+		}
+		model[key] = b
+	}
 	for i, o := range cr.Ops {
 		name := opName("value", o)
 		// model view before the operation
 		mb, exists := model[key]
-		cur, _, decErr := decV(mb)
+		cur, _, decErr := cd.dec(mb)
 		garbage := exists && decErr != nil
 
 		f0 := in.FiredCount()
@@ -254,7 +305,7 @@ func runValue(cr caseRec, in *faultkv.Injector, st kvstore.KVStore, inner kvstor
 				err = tv.Set(o.V)
 			case "del":
 				err = tv.Delete()
-			case "cinc", "cnc", "cfail":
+			case "cinc", "cnc", "cfail", "cconst":
 				gotV, err = tv.Compute(func(c int64, ex bool) (int64, error) {
 					fnCalls++
 					fnCur, fnExists = c, ex
@@ -263,6 +314,8 @@ func runValue(cr caseRec, in *faultkv.Injector, st kvstore.KVStore, inner kvstor
 						return 0, kvstore.ErrTypedValueNotChanged
 					case "cfail":
 						return 0, errCompute
+					case "cconst":
+						return o.V, nil
 					}
 					if !ex {
 						return 1, nil
@@ -343,7 +396,7 @@ func runValue(cr caseRec, in *faultkv.Injector, st kvstore.KVStore, inner kvstor
 				if err != nil {
 					bad("spurious-error", "Set failed: "+errStr(err))
 				} else {
-					model[key] = encV(o.V)
+					write(o.V)
 				}
 			case "del":
 				if err != nil {
@@ -351,7 +404,7 @@ func runValue(cr caseRec, in *faultkv.Injector, st kvstore.KVStore, inner kvstor
 				} else {
 					delete(model, key)
 				}
-			case "cinc":
+			case "cinc", "cconst":
 				if garbage {
 					if err == nil {
 						bad("error-not-reported", fmt.Sprintf("returned %d,nil but the current raw bytes cannot be decoded", gotV))
@@ -362,6 +415,9 @@ func runValue(cr caseRec, in *faultkv.Injector, st kvstore.KVStore, inner kvstor
 				if exists {
 					want = cur + 1
 				}
+				if o.K == "cconst" {
+					want = o.V
+				}
 				if err != nil {
 					bad("spurious-error", "Compute failed: "+errStr(err))
 				} else {
@@ -369,7 +425,7 @@ func runValue(cr caseRec, in *faultkv.Injector, st kvstore.KVStore, inner kvstor
 					if gotV != want {
 						bad("wrong-result", fmt.Sprintf("returned %d, expected %d (raw key held: %s)", gotV, want, state))
 					}
-					model[key] = encV(want)
+					write(want)
 				}
 			case "cnc":
 				if garbage {
@@ -418,6 +474,7 @@ type kvp struct {
 }
 
 func runStore(cr caseRec, in *faultkv.Injector, st kvstore.KVStore, inner kvstore.KVStore, model map[string][]byte, res *runResult) {
+	cd := codecOf(cr)
 	ts := kvstore.NewTypedStore[string, int64](st,
 		func(k string) ([]byte, error) {
 			if err := in.FailHere("enc.key"); err != nil {
@@ -435,19 +492,19 @@ func runStore(cr caseRec, in *faultkv.Injector, st kvstore.KVStore, inner kvstor
 			if err := in.FailHere("enc.value"); err != nil {
 				return nil, err
 			}
-			return encV(v), nil
+			return cd.enc(v), nil
 		},
 		func(b []byte) (int64, int, error) {
 			if err := in.FailHere("dec.value"); err != nil {
 				return 0, 0, err
 			}
-			return decV(b)
+			return cd.dec(b)
 		})
 	for i, o := range cr.Ops {
 		name := opName("store", o)
 		kb, keyErr := encK(o.Key)
 		mb, exists := model[string(kb)]
-		cur, _, decErr := decV(mb)
+		cur, _, decErr := cd.dec(mb)
 		garbage := exists && decErr != nil
 
 		// expected callback sequence of Iterate = raw iteration under the reference codec
@@ -460,7 +517,7 @@ func runStore(cr caseRec, in *faultkv.Injector, st kvstore.KVStore, inner kvstor
 		if o.K == "iter" {
 			inner.Iterate([]byte(o.Prefix), func(k, v []byte) bool {
 				kk, _, e1 := decK(k)
-				vv, _, e2 := decV(v)
+				vv, _, e2 := cd.dec(v)
 				if e1 != nil || e2 != nil {
 					expErr = true
 					return false
@@ -566,7 +623,14 @@ func runStore(cr caseRec, in *faultkv.Injector, st kvstore.KVStore, inner kvstor
 				if err != nil {
 					bad("spurious-error", "Set failed: "+errStr(err))
 				} else {
-					model[string(kb)] = encV(o.V)
+					nb := cd.enc(o.V)
+					if old, ok := model[string(kb)]; ok && bytes.Equal(old, nb) {
+						res.noopWrites++
+					}
+					if len(nb) == 0 {
+						res.zeroLenWrites++
+					}
+					model[string(kb)] = nb
 				}
 			case "del":
 				if err != nil {
@@ -672,6 +736,7 @@ func genStoreCase(rng *rand.Rand) caseRec {
 
 type stats struct {
 	runs, faultRuns, fired, checks, histories int
+	zeroLen, noop                             int
 	ctx                                       map[string]int
 	viols                                     []pending
 }
@@ -683,7 +748,7 @@ type pending struct {
 
 func caseHash(cr caseRec, fault int) uint64 {
 	h := fnv.New64a()
-	fmt.Fprintf(h, "%s|%v|%v|%d", cr.Target, cr.Init, cr.Ops, fault)
+	fmt.Fprintf(h, "%s|%s|%v|%v|%d", cr.Target, cr.Codec, cr.Init, cr.Ops, fault)
 	return h.Sum64()
 }
 
@@ -691,6 +756,8 @@ func record(st *stats, r runResult, cr caseRec) {
 	st.runs++
 	st.checks += r.checks
 	st.fired += len(r.fired)
+	st.zeroLen += r.zeroLenWrites
+	st.noop += r.noopWrites
 	for _, x := range r.ctx {
 		st.ctx[x]++
 	}
@@ -756,6 +823,8 @@ func merge(c *vf.Ctx, st *stats) {
 	c.Count("fault_runs", st.faultRuns)
 	c.Count("faults_injected", st.fired)
 	c.Count("steps_checked", st.checks)
+	c.Count("zero_length_encodings_written", st.zeroLen)
+	c.Count("noop_writes_same_bytes", st.noop)
 	for k, v := range st.ctx {
 		c.Count("fault:"+k, v)
 		c.Distinct("fault_contexts", k)
